@@ -140,7 +140,19 @@ func (b *exampleBuilder) buildExampleForArrayNode(node *ischema.ArrayNode) ([]by
 	return append([]byte(nil), buf.Bytes()...), nil
 }
 
+// buildExampleForMixedValueNode gives nil when the value has to be left out to
+// end a recursion, except for a nullable reference: its example is null then
+// (a mandatory member stays in the object, a reference that is the whole schema
+// still has an example).
 func (b *exampleBuilder) buildExampleForMixedValueNode(node *ischema.MixedValueNode) ([]byte, error) {
+	ex, err := b.buildExampleForMixedValue(node)
+	if ex == nil && err == nil && ischema.IsNullableNode(node) {
+		return []byte("null"), nil
+	}
+	return ex, err
+}
+
+func (b *exampleBuilder) buildExampleForMixedValue(node *ischema.MixedValueNode) ([]byte, error) {
 	tt := node.GetTypes()
 	if len(tt) == 0 {
 		// Normally this shouldn't happen, but we still have to handle this case.
